@@ -146,6 +146,8 @@ def variant_text(v):
     if v.get("cfg_off"):
         lines.append("        #[cfg(any())]")
     if v.get("rename") is not None:
+        for x in v.get("extra_renames", []):      # earlier rename attributes on the same variant (C17 only)
+            lines.append("        #[enum_tools(rename = %s)]" % rust_str_lit(x))
         lit = rust_str_lit(v["rename"], v.get("rename_raw", False))
         if v.get("rename_via_cfg_attr"):
             lines.append("        #[cfg_attr(all(), enum_tools(rename = %s))]" % lit)
